@@ -27,6 +27,7 @@ def src(s):
     if p[0] == "wrong": return "(SWrong %s)" % n(p[1])
     if p[0] == "boxwrong": return "(SBoxWrong %s)" % n(p[1])
     if p[0] == "lz": return "(SLazy %s %s %s)" % (n(p[1]), nat(p[2]), n(p[3]))
+    if p[0] == "ulz": return "(SLazyUser %s)" % n(p[1])
     if p[0] == "tmp": return "(STemp %s %s %s)" % (nat(p[1]), tkind(p[2]), n(p[3]))
     raise ValueError(s)
 def sink(s):
